@@ -184,8 +184,7 @@ pub fn run_c03_scanners(chk: &Check, tier: Tier) {
         engine::record(chk, &sys, &out, None);
         #[cfg(feature = "polling")]
         {
-            let mut sys = PollSys::new("C03", c, 2, 1, &V3, false, PReport { repr: true, ..Default::default() });
-            sys.noncontrib = noncontrib_small::<PollingParameterNumberMessageScanner>(c);
+            let sys = PollSys::new("C03", c, 2, 1, &V3, false, PReport { repr: true, ..Default::default() });
             let out = xs::explore(&sys, &Limits::default());
             engine::record(chk, &sys, &out, None);
         }
